@@ -7,7 +7,8 @@ ms = [json.load(open(f)) for f in sorted(glob.glob(str(V / "seeded" / "*" / "met
 n = len(ms); caught0 = sum(1 for m in ms if m.get("first_result", "").startswith("caught")); det = sum(1 for m in ms if m.get("detected"))
 out = ["### 11.5 Independently seeded property-breaking changes (`seeded/<name>/`)", "",
        f"{n} changes written by fresh sub-agents that saw only the property text and their own worktree (wave 1: two per claimed",
-       "property; wave 2: concurrency defects, crash-point / history defects, hidden state), each confirmed here: the patch applies",
+       "property; wave 2: concurrency defects, crash-point / history defects, hidden state; wave 3: numeric range / encoding /",
+       "configuration corners; wave 4: one more per property, asked for a mechanism unlike the earlier ones), each confirmed here: the patch applies",
        "to /repo HEAD, the pinned baseline still passes 73/73, the agent's demo flips from `PROPERTY HOLDS` to `PROPERTY VIOLATED`,",
        "and `VERIF_REPO=<worktree> ./check <ID> --tier quick` is run (`tools/seed_verify.py`).",
        f"{caught0} of the {n} were caught by the checks as they were when the change arrived; every miss led to a strengthening of the",
